@@ -402,6 +402,9 @@ class OsProxy:
             setattr(self, n, getattr(k, n))
 
     def access(self, p, mode):
+        orc = getattr(self.k, "access_oracle", None)
+        if orc is not None and mode != _os.F_OK:
+            return bool(orc(p))
         return self.k.exists(p)
 
     def sysconf(self, name):
